@@ -602,8 +602,16 @@ tx_outs:\n{tx_outs}
         """Returns whether the input has a valid signature"""
         # get the relevant input
         tx_in = self.tx_ins[input_index]
+        script_pubkey = tx_in.script_pubkey(self.network)
+        # BIP141/BIP341: a native witness program is spent with an empty ScriptSig
+        if (
+            script_pubkey.is_p2wpkh()
+            or script_pubkey.is_p2wsh()
+            or script_pubkey.is_p2tr()
+        ) and len(tx_in.script_sig.commands) > 0:
+            return False
         # combine the scripts
-        combined_script = tx_in.script_sig + tx_in.script_pubkey(self.network)
+        combined_script = tx_in.script_sig + script_pubkey
         # evaluate the combined script
         return combined_script.evaluate(self, input_index)
 
